@@ -7,6 +7,7 @@ import (
 	"math"
 	"math/big"
 	"reflect"
+	"regexp"
 	"strings"
 	"testing"
 
@@ -140,6 +141,202 @@ func checkIter(r *vk.Run, c IterCase) *vk.Fail {
 		if tr.Panicked() || tr.Err != nil || tr.Out != want.String() {
 			return fail("template loop %q gave %s, want %q", src, tr, want.String())
 		}
+		// the one-variable loop form, and (arguments >= 0: a template has no negative literals) the
+		// arguments spelled as number literals in the source, glued and spaced
+		var wantV strings.Builder
+		for x := new(big.Int).Set(lo); x.Cmp(hi) <= 0; x.Add(x, big.NewInt(1)) {
+			fmt.Fprintf(&wantV, "%v,", x)
+		}
+		call := c.Fn + `(a, b)`
+		if c.Fn == "until" {
+			call = `until(a)`
+		}
+		const loopR = `<%= for (i) in r { %><%= i %>,<% } %>`
+		srcs := []string{`<%= for (i) in ` + call + ` { %><%= i %>,<% } %>`,
+			// the iterator reaches the loop through a variable, and as the result of a function of the template
+			`<% let r = ` + call + ` %>` + loopR,
+			`<% let f = fn(a, b) { return ` + call + ` } %><% let r = f(a, b) %>` + loopR,
+			`<% let f = fn(p, q) { let a = p` + "\n" + `let b = q` + "\n" + `return ` + call + ` } %><%= for (i) in f(a, b) { %><%= i %>,<% } %>`}
+		nCtx := len(srcs) // the sources below spell the arguments as literals
+		if c.A >= 0 && (c.B >= 0 || c.Fn == "until") {
+			lit, lit2 := fmt.Sprintf("%s(%d,%d)", c.Fn, c.A, c.B), fmt.Sprintf("%s( %d , %d )", c.Fn, c.A, c.B)
+			if c.Fn == "until" {
+				lit, lit2 = fmt.Sprintf("until(%d)", c.A), fmt.Sprintf("until( %d )", c.A)
+			}
+			srcs = append(srcs, `<%= for (i) in `+lit+` { %><%= i %>,<% } %>`, `<%= for (i) in `+lit2+` { %><%= i %>,<% } %>`)
+		}
+		for _, s2 := range srcs {
+			ctx := plush.NewContextWith(map[string]interface{}{"a": c.A, "b": c.B})
+			tr := vk.Safe(func() (string, error) { return plush.Render(s2, ctx) })
+			r.Evals(1)
+			if tr.Panicked() || tr.Err != nil || tr.Out != wantV.String() {
+				return fail("template loop %q gave %s, want %q", s2, tr, wantV.String())
+			}
+		}
+		// one parsed template executed several times, with the arguments moved by one in between
+		// (parse once, execute per request: nothing of one execution may reach the next)
+		for si, s2 := range srcs {
+			if si != 0 && si != 2 && si != nCtx {
+				continue
+			}
+			var tpl *plush.Template
+			pr := vk.Safe(func() (string, error) {
+				var err error
+				tpl, err = plush.Parse(s2)
+				return "", err
+			})
+			if pr.Panicked() || pr.Err != nil {
+				return fail("Parse(%q): %s", s2, pr)
+			}
+			for round, d := range []int{0, 1, 0} {
+				if d != 0 && (si >= nCtx || c.A == math.MaxInt || (c.Fn != "until" && c.B == math.MaxInt)) {
+					continue // literals do not move; no room to move
+				}
+				sh := IterCase{Fn: c.Fn, A: c.A + d, B: c.B + d}
+				w := loopText(sh, func(x *big.Int) string { return x.String() + "," })
+				ctx := plush.NewContextWith(map[string]interface{}{"a": sh.A, "b": sh.B})
+				tr := vk.Safe(func() (string, error) { return tpl.Exec(ctx) })
+				r.Evals(1)
+				if tr.Panicked() || tr.Err != nil || tr.Out != w {
+					return fail("execution %d of the parsed template %q with a=%d b=%d gave %s, want %q", round+1, s2, sh.A, sh.B, tr, w)
+				}
+			}
+		}
+	}
+	return nil
+}
+
+// ---- two iterators alive at the same time ------------------------------------------
+
+// PairCase: two iterator calls whose Next calls are interleaved. Every call of
+// range/between/until yields ITS interval whatever other iterators exist or have
+// existed: the statement quantifies over calls, not over "the only iterator alive".
+type PairCase struct {
+	X     IterCase `json:"x"`
+	Y     IterCase `json:"y"`
+	Sched string   `json:"sched"`           // 'x' / 'y': one Next on that iterator
+	Eager bool     `json:"eager,omitempty"` // true: both are created before the first Next; false: each at its first use
+}
+
+func mkIter(c IterCase) iterators.Iterator {
+	switch c.Fn {
+	case "range":
+		return iterators.Range(c.A, c.B)
+	case "between":
+		return iterators.Between(c.A, c.B)
+	}
+	return iterators.Until(c.A)
+}
+
+func intervalSize(c IterCase) *big.Int {
+	lo, hi := interval(c)
+	if lo.Cmp(hi) > 0 {
+		return big.NewInt(0)
+	}
+	d := new(big.Int).Sub(hi, lo)
+	return d.Add(d, big.NewInt(1))
+}
+
+func loopText(c IterCase, f func(x *big.Int) string) string {
+	lo, hi := interval(c)
+	var b strings.Builder
+	for x := new(big.Int).Set(lo); x.Cmp(hi) <= 0; x.Add(x, big.NewInt(1)) {
+		b.WriteString(f(x))
+	}
+	return b.String()
+}
+
+func checkPair(r *vk.Run, c PairCase) *vk.Fail {
+	defer r.Watch("pair", c)()
+	name := fmt.Sprintf("x=%s y=%s sched=%s eager=%v", c.X, c.Y, c.Sched, c.Eager)
+	fail := func(f string, a ...interface{}) *vk.Fail {
+		return &vk.Fail{Kind: "pair", Case: c, Msg: name + ": " + fmt.Sprintf(f, a...)}
+	}
+	var its [2]iterators.Iterator
+	var cur, hi [2]*big.Int
+	cases := [2]IterCase{c.X, c.Y}
+	for i := range cases {
+		lo, h := interval(cases[i])
+		cur[i], hi[i] = new(big.Int).Set(lo), h
+	}
+	var msg string
+	res := vk.Safe(func() (string, error) {
+		if c.Eager {
+			its[0], its[1] = mkIter(c.X), mkIter(c.Y)
+		}
+		for k, ev := range c.Sched {
+			i := 0
+			if ev == 'y' {
+				i = 1
+			}
+			if its[i] == nil {
+				its[i] = mkIter(cases[i])
+			}
+			got := its[i].Next()
+			if cur[i].Cmp(hi[i]) > 0 {
+				if got != nil {
+					msg = fmt.Sprintf("event %d (%c): %s is exhausted, yet Next gave %v", k, ev, cases[i], got)
+					return "", nil
+				}
+				continue
+			}
+			gi, ok := got.(int)
+			if !ok || big.NewInt(int64(gi)).Cmp(cur[i]) != 0 {
+				msg = fmt.Sprintf("event %d (%c): %s should yield %v next, got %v", k, ev, cases[i], cur[i], got)
+				return "", nil
+			}
+			cur[i].Add(cur[i], big.NewInt(1))
+		}
+		return "", nil
+	})
+	if res.Panicked() {
+		return fail("%s", res)
+	}
+	if msg != "" {
+		return fail("%s", msg)
+	}
+	nt := ""
+	if strings.Contains(c.Sched, "x") && strings.Contains(c.Sched, "y") {
+		nt = "P|" + name
+	}
+	r.Count(nt, "pair/direct")
+	if nt != "" {
+		r.Sample(func() interface{} { return c })
+	}
+	// through templates, when both intervals are short: a loop nested in a loop (the inner call is
+	// evaluated once per outer turn while the outer iterator is alive) and three loops in a row
+	six := big.NewInt(6)
+	if intervalSize(c.X).Cmp(six) <= 0 && intervalSize(c.Y).Cmp(six) <= 0 {
+		call := func(ic IterCase, p, q string) string {
+			if ic.Fn == "until" {
+				return "until(" + p + ")"
+			}
+			return ic.Fn + "(" + p + ", " + q + ")"
+		}
+		cx, cy := call(c.X, "a", "b"), call(c.Y, "c", "d")
+		inner := loopText(c.Y, func(y *big.Int) string { return "%s." + y.String() + "," })
+		wantNested := loopText(c.X, func(x *big.Int) string { return strings.ReplaceAll(inner, "%s", x.String()) + ";" })
+		xs, ys := loopText(c.X, func(x *big.Int) string { return x.String() + "," }), loopText(c.Y, func(y *big.Int) string { return y.String() + "," })
+		type tcase struct{ src, want string }
+		mk := func(cx, cy string) []tcase {
+			return []tcase{
+				{`<%= for (i) in ` + cx + ` { %><%= for (j) in ` + cy + ` { %><%= i %>.<%= j %>,<% } %>;<% } %>`, wantNested},
+				{`<%= for (i) in ` + cx + ` { %><%= i %>,<% } %>|<%= for (j) in ` + cy + ` { %><%= j %>,<% } %>|<%= for (i) in ` + cx + ` { %><%= i %>,<% } %>`, xs + "|" + ys + "|" + xs},
+			}
+		}
+		tcs := mk(cx, cy)
+		if lit := func(ic IterCase) bool { return ic.A >= 0 && (ic.B >= 0 || ic.Fn == "until") }; lit(c.X) && lit(c.Y) {
+			// the arguments spelled as number literals: the calls are the same text on every turn
+			tcs = append(tcs, mk(call(c.X, fmt.Sprint(c.X.A), fmt.Sprint(c.X.B)), call(c.Y, fmt.Sprint(c.Y.A), fmt.Sprint(c.Y.B)))...)
+		}
+		for _, tc := range tcs {
+			ctx := plush.NewContextWith(map[string]interface{}{"a": c.X.A, "b": c.X.B, "c": c.Y.A, "d": c.Y.B})
+			tr := vk.Safe(func() (string, error) { return plush.Render(tc.src, ctx) })
+			r.Count(nt, "pair/template")
+			if tr.Panicked() || tr.Err != nil || tr.Out != tc.want {
+				return fail("template %q gave %s, want %q", tc.src, tr, tc.want)
+			}
+		}
 	}
 	return nil
 }
@@ -148,47 +345,94 @@ func checkIter(r *vk.Run, c IterCase) *vk.Fail {
 
 type item struct{ N int }
 
+type intList []int
+type strList []string
+
 type GroupCase struct {
 	Len   int    `json:"len"`
 	N     int    `json:"n"`
-	Elem  string `json:"elem"`            // string | int | struct | ptr
-	Form  string `json:"form"`            // slice | ptr-slice | ptr-array | array
+	Elem  string `json:"elem"`            // string | int | struct | ptr | iface | nilptr | byte | nested | empty
+	Form  string `json:"form"`            // slice | ptr-slice | ptr-array | array | named (int, string only) | nil-slice (len 0 only)
 	Spare int    `json:"spare,omitempty"` // extra capacity behind the slice, filled with stale elements that are NOT part of xs
 }
 
+var ifaceType = reflect.TypeOf((*interface{})(nil)).Elem()
+
 var arrayTypes = map[string]reflect.Type{
 	"string": reflect.TypeOf(""), "int": reflect.TypeOf(0), "struct": reflect.TypeOf(item{}), "ptr": reflect.TypeOf(&item{}),
+	// []interface{} is what an array literal of a template is; nil elements; 1-byte, uncomparable and zero-size elements
+	"iface": ifaceType, "nilptr": reflect.TypeOf(&item{}), "byte": reflect.TypeOf(uint8(0)), "nested": reflect.TypeOf([]int{}), "empty": reflect.TypeOf(struct{}{}),
+}
+
+// elemValue is element number k of a sequence of the given element kind.
+func elemValue(kind string, k int) reflect.Value {
+	switch kind {
+	case "string":
+		return reflect.ValueOf(fmt.Sprintf("e%d", k))
+	case "int":
+		return reflect.ValueOf(k)
+	case "struct":
+		return reflect.ValueOf(item{k})
+	case "ptr":
+		return reflect.ValueOf(&item{k})
+	case "nilptr":
+		if k%3 == 1 {
+			return reflect.Zero(arrayTypes[kind])
+		}
+		return reflect.ValueOf(&item{k})
+	case "iface":
+		switch k % 4 {
+		case 0:
+			return reflect.ValueOf(k)
+		case 1:
+			return reflect.ValueOf(fmt.Sprintf("e%d", k))
+		case 2:
+			return reflect.Zero(ifaceType)
+		}
+		return reflect.ValueOf(item{k})
+	case "byte":
+		return reflect.ValueOf(uint8(k % 251))
+	case "nested":
+		return reflect.ValueOf([]int{k, k + 1})
+	}
+	return reflect.ValueOf(struct{}{})
+}
+
+// backing builds a slice of n+spare elements of which the first n are the
+// sequence and the rest stale elements in the spare capacity; flat lists the
+// first n as interface values (the very same pointers for pointer elements).
+func backing(elem string, n, spare int) (full reflect.Value, flat []interface{}) {
+	et := arrayTypes[elem]
+	full = reflect.MakeSlice(reflect.SliceOf(et), n+spare, n+spare)
+	for i := 0; i < n+spare; i++ {
+		k := i
+		if i >= n {
+			k = 9000 + i // stale element in the spare capacity
+		}
+		full.Index(i).Set(elemValue(elem, k))
+		if i < n {
+			flat = append(flat, full.Index(i).Interface())
+		}
+	}
+	return full, flat
 }
 
 // build constructs the sequence and the flat list of its elements as interface values.
 func (c GroupCase) build() (seq interface{}, flat []interface{}) {
 	et := arrayTypes[c.Elem]
-	full := reflect.MakeSlice(reflect.SliceOf(et), c.Len+c.Spare, c.Len+c.Spare)
-	for i := 0; i < c.Len+c.Spare; i++ {
-		k := i
-		if i >= c.Len {
-			k = 9000 + i // stale element in the spare capacity
-		}
-		var v reflect.Value
-		switch c.Elem {
-		case "string":
-			v = reflect.ValueOf(fmt.Sprintf("e%d", k))
-		case "int":
-			v = reflect.ValueOf(k)
-		case "struct":
-			v = reflect.ValueOf(item{k})
-		default:
-			v = reflect.ValueOf(&item{k})
-		}
-		full.Index(i).Set(v)
-		if i < c.Len {
-			flat = append(flat, v.Interface())
-		}
+	if c.Form == "nil-slice" {
+		return reflect.Zero(reflect.SliceOf(et)).Interface(), nil
 	}
+	full, flat := backing(c.Elem, c.Len, c.Spare)
 	sl := full.Slice(0, c.Len) // len c.Len, cap c.Len+c.Spare
 	switch c.Form {
 	case "slice":
 		return sl.Interface(), flat
+	case "named":
+		if c.Elem == "int" {
+			return sl.Convert(reflect.TypeOf(intList(nil))).Interface(), flat
+		}
+		return sl.Convert(reflect.TypeOf(strList(nil))).Interface(), flat
 	case "ptr-slice":
 		p := reflect.New(sl.Type())
 		p.Elem().Set(sl)
@@ -204,6 +448,21 @@ func (c GroupCase) build() (seq interface{}, flat []interface{}) {
 	}
 }
 
+func (c GroupCase) valid() bool {
+	if arrayTypes[c.Elem] == nil || c.Len < 0 || c.Len > 10000 || c.Spare < 0 || c.Spare > 1000 {
+		return false
+	}
+	switch c.Form {
+	case "slice", "ptr-slice", "ptr-array", "array":
+		return true
+	case "named":
+		return c.Elem == "int" || c.Elem == "string"
+	case "nil-slice":
+		return c.Len == 0 && c.Spare == 0
+	}
+	return false
+}
+
 func drain(it interface{ Next() interface{} }) []interface{} {
 	var out []interface{}
 	for i := 0; i < 1000; i++ {
@@ -214,6 +473,35 @@ func drain(it interface{ Next() interface{} }) []interface{} {
 		out = append(out, g)
 	}
 	return append(out, "ITERATOR DID NOT END AFTER 1000 GROUPS")
+}
+
+// same: == where the type has it (ints, strings, structs of them, pointer
+// identity, nil), reflect.DeepEqual for the uncomparable element kind.
+func same(a, b interface{}) bool {
+	if a == nil || b == nil {
+		return a == nil && b == nil
+	}
+	ta := reflect.TypeOf(a)
+	if ta != reflect.TypeOf(b) {
+		return false
+	}
+	if ta.Comparable() {
+		return a == b
+	}
+	return reflect.DeepEqual(a, b)
+}
+
+func sizesOf(groups []interface{}) []int {
+	var out []int
+	for _, g := range groups {
+		gv := reflect.ValueOf(g)
+		if gv.Kind() != reflect.Slice && gv.Kind() != reflect.Array {
+			out = append(out, -1)
+			continue
+		}
+		out = append(out, gv.Len())
+	}
+	return out
 }
 
 func lawCheck(groups []interface{}, flat []interface{}, n int) string {
@@ -247,52 +535,59 @@ func lawCheck(groups []interface{}, flat []interface{}, n int) string {
 		return fmt.Sprintf("concatenation has %d elements, input %d", len(cat), len(flat))
 	}
 	for i := range cat {
-		if cat[i] != flat[i] { // ints, strings, comparable structs, pointer identity
+		if !same(cat[i], flat[i]) {
 			return fmt.Sprintf("element %d of the concatenation is %v, input has %v", i, cat[i], flat[i])
 		}
 	}
 	return ""
 }
 
+func callGroupBy(impl int, n int, seq interface{}) (interface{ Next() interface{} }, error) {
+	if impl == 0 {
+		it, err := iterators.GroupBy(n, seq)
+		if err != nil || it == nil {
+			return nil, err
+		}
+		return it, nil
+	}
+	it, err := plush.GroupByHelper(n, seq)
+	if err != nil || it == nil {
+		return nil, err
+	}
+	return it, nil
+}
+
+var implNames = []string{"iterators.GroupBy", "plush.GroupByHelper"}
+
+var groupTplRe = regexp.MustCompile(`\[(\d+)\|([^\]|]*)\]`)
+
 func checkGroup(r *vk.Run, c GroupCase) *vk.Fail {
 	defer r.Watch("group", c)()
 	fail := func(f string, a ...interface{}) *vk.Fail {
-		return &vk.Fail{Kind: "group", Case: c, Msg: fmt.Sprintf("groupBy(%d, %s of %d %s): ", c.N, c.Form, c.Len, c.Elem) + fmt.Sprintf(f, a...)}
+		return &vk.Fail{Kind: "group", Case: c, Msg: fmt.Sprintf("groupBy(%d, %s of %d %s, spare %d): ", c.N, c.Form, c.Len, c.Elem, c.Spare) + fmt.Sprintf(f, a...)}
 	}
 	type outcome struct {
 		groups []interface{}
 		err    error
 	}
-	run := func(which string) (outcome, *vk.Fail) {
-		seq, _ := c.build()
+	var outs [2]outcome
+	for i, which := range implNames {
+		seq, flat := c.build() // the very sequence this call works on: pointer elements are compared by identity
 		var o outcome
 		res := vk.Safe(func() (string, error) {
-			if which == "iterators.GroupBy" {
-				it, err := iterators.GroupBy(c.N, seq)
-				o.err = err
-				if err == nil {
-					o.groups = drain(it)
+			it, err := callGroupBy(i, c.N, seq)
+			o.err = err
+			if err == nil {
+				if it == nil {
+					o.err = fmt.Errorf("nil iterator and nil error")
+					return "", nil
 				}
-			} else {
-				it, err := plush.GroupByHelper(c.N, seq)
-				o.err = err
-				if err == nil {
-					o.groups = drain(it)
-				}
+				o.groups = drain(it)
 			}
 			return "", nil
 		})
 		if res.Panicked() {
-			return o, fail("%s: %s", which, res)
-		}
-		return o, nil
-	}
-	_, flat := c.build()
-	var outs [2]outcome
-	for i, which := range []string{"iterators.GroupBy", "plush.GroupByHelper"} {
-		o, f := run(which)
-		if f != nil {
-			return f
+			return fail("%s: %s", which, res)
 		}
 		outs[i] = o
 		if c.N <= 0 {
@@ -304,13 +599,32 @@ func checkGroup(r *vk.Run, c GroupCase) *vk.Fail {
 		if o.err != nil {
 			return fail("%s: unexpected error %v", which, o.err)
 		}
-		// rebuild flat from this run's sequence for pointer identity
-		if msg := lawCheck(o.groups, flatOf(o.groups, flat, c), c.N); msg != "" {
+		if msg := lawCheck(o.groups, flat, c.N); msg != "" {
 			return fail("%s: %s (groups %v)", which, msg, o.groups)
 		}
 	}
-	if c.N > 0 && len(outs[0].groups) != len(outs[1].groups) {
-		return fail("the two implementations disagree: %d vs %d groups", len(outs[0].groups), len(outs[1].groups))
+	if c.N <= 0 && c.Len <= 12 && (c.Elem == "int" || c.Elem == "string") {
+		// through a template the error fails the render
+		seq, _ := c.build()
+		ctx := plush.NewContextWith(map[string]interface{}{"xs": seq, "n": c.N})
+		src := `a<%= for (g) in groupBy(n, xs) { %>g<% } %>b`
+		if c.N == 0 {
+			src = `a<%= for (g) in groupBy(0, xs) { %>g<% } %>b`
+		}
+		tr := vk.Safe(func() (string, error) { return plush.Render(src, ctx) })
+		r.Evals(1)
+		if tr.Panicked() || tr.Err == nil {
+			return fail("template %q gave %s, want an error", src, tr)
+		}
+	}
+	var sizes []int
+	if c.N > 0 {
+		// "identically in both shipped implementations": with the concatenation law, equal group
+		// sizes mean equal groups
+		sizes = sizesOf(outs[0].groups)
+		if s1 := sizesOf(outs[1].groups); fmt.Sprint(sizes) != fmt.Sprint(s1) {
+			return fail("the two implementations disagree: group sizes %v vs %v", sizes, s1)
+		}
 	}
 	nt := ""
 	if c.N > 0 && c.Len > 0 && (c.Len%c.N != 0 || c.Form != "slice" || c.Len <= c.N) {
@@ -320,58 +634,189 @@ func checkGroup(r *vk.Run, c GroupCase) *vk.Fail {
 	if nt != "" {
 		r.Sample(func() interface{} { return map[string]interface{}{"case": c, "groups": len(outs[0].groups)} })
 	}
-	// through a template (ints and strings only: printable elements)
+	// through a template (ints and strings only: printable elements); every group also goes through len
 	if c.N > 0 && (c.Elem == "int" || c.Elem == "string") && c.Len <= 12 {
-		seq, fl := c.build()
-		ctx := plush.NewContextWith(map[string]interface{}{"xs": seq, "n": c.N})
-		tr := vk.Safe(func() (string, error) {
-			return plush.Render(`<%= for (g) in groupBy(n, xs) { %>[<%= for (x) in g { %><%= x %>,<% } %>]<% } %>`, ctx)
-		})
-		r.Evals(1)
-		if tr.Panicked() || tr.Err != nil {
-			return fail("template: %s", tr)
-		}
+		_, fl := c.build()
 		flatTxt := ""
 		for _, x := range fl {
 			flatTxt += fmt.Sprint(x) + ","
 		}
-		got := strings.NewReplacer("[", "", "]", "").Replace(tr.Out)
-		if got != flatTxt {
-			return fail("template: groups concatenate to %q, want %q (output %q)", got, flatTxt, tr.Out)
+		sizesTxt := ""
+		for _, s := range sizes {
+			sizesTxt += fmt.Sprintf("[%d]", s)
 		}
-		if strings.Count(tr.Out, "[") > c.N || strings.Contains(tr.Out, "[]") {
-			return fail("template: output %q has more than n groups or an empty group", tr.Out)
+		const body = ` { %>[<%= len(g) %>|<%= for (x) in g { %><%= x %>,<% } %>]<% } %>`
+		srcs := []string{`<%= for (g) in groupBy(n, xs)` + body}
+		if c.Form == "slice" && c.Spare == 0 {
+			// the sequence and n spelled as literals of the template: an array literal is a []interface{}
+			var lit []string
+			for _, x := range fl {
+				if c.Elem == "string" {
+					lit = append(lit, `"`+fmt.Sprint(x)+`"`)
+				} else {
+					lit = append(lit, fmt.Sprint(x))
+				}
+			}
+			srcs = append(srcs, fmt.Sprintf(`<%%= for (g) in groupBy(%d, [%s])`, c.N, strings.Join(lit, ", "))+body)
+		}
+		for _, src := range srcs {
+			seq, _ := c.build()
+			ctx := plush.NewContextWith(map[string]interface{}{"xs": seq, "n": c.N})
+			tr := vk.Safe(func() (string, error) { return plush.Render(src, ctx) })
+			r.Evals(1)
+			if tr.Panicked() || tr.Err != nil {
+				return fail("template %q: %s", src, tr)
+			}
+			ms := groupTplRe.FindAllStringSubmatch(tr.Out, -1)
+			got, whole, gotSizes := "", "", ""
+			for _, m := range ms {
+				whole += m[0]
+				got += m[2]
+				gotSizes += "[" + m[1] + "]"
+				if m[1] != fmt.Sprint(strings.Count(m[2], ",")) {
+					return fail("template %q: len(g) printed %s for the group %q (output %q)", src, m[1], m[2], tr.Out)
+				}
+			}
+			if whole != tr.Out || got != flatTxt {
+				return fail("template %q: groups concatenate to %q, want %q (output %q)", src, got, flatTxt, tr.Out)
+			}
+			if len(ms) > c.N || strings.Contains(tr.Out, "[0|") {
+				return fail("template %q: output %q has more than n groups or an empty group", src, tr.Out)
+			}
+			if gotSizes != sizesTxt {
+				return fail("template %q: group sizes %s, the direct call on an equal sequence gave %s", src, gotSizes, sizesTxt)
+			}
+		}
+		// the same call evaluated once per turn of an enclosing loop: every turn sees the whole partition
+		seq, _ := c.build()
+		ctx := plush.NewContextWith(map[string]interface{}{"xs": seq, "n": c.N})
+		src := `<%= for (t) in until(3) { %><%= for (g) in groupBy(n, xs) { %>[<%= len(g) %>]<% } %>;<% } %>`
+		tr := vk.Safe(func() (string, error) { return plush.Render(src, ctx) })
+		r.Evals(1)
+		if want := strings.Repeat(sizesTxt+";", 3); tr.Panicked() || tr.Err != nil || tr.Out != want {
+			return fail("template %q gave %s, want %q", src, tr, want)
 		}
 	}
 	return nil
 }
 
-// flatOf: pointer elements are rebuilt by every build(), so for pointer elements
-// compare by pointee value instead of identity.
-func flatOf(groups []interface{}, flat []interface{}, c GroupCase) []interface{} {
-	if c.Elem != "ptr" {
-		return flat
+// ---- several groupBy calls over shared storage --------------------------------------
+
+type GroupCall struct {
+	L    int `json:"l"`
+	N    int `json:"n"`
+	Impl int `json:"impl"` // 0 iterators.GroupBy, 1 plush.GroupByHelper
+}
+
+// GroupSeqCase: a sequence of groupBy calls over ONE backing array. Form slice:
+// call i gets the prefix full[:L]. Form ptr-slice: call i gets a pointer to a
+// slice variable holding full[:L] - the same variable, re-assigned between the
+// calls, when every iterator is drained at once; one variable per call when
+// they are held (what a held iterator shows after its argument has been
+// re-assigned is not stated). Form ptr-array: every call gets the same *[Cap]T
+// (L is ignored). Each call must partition what it was given, whatever was
+// asked before and whichever iterators are still alive.
+type GroupSeqCase struct {
+	Cap   int         `json:"cap"`
+	Elem  string      `json:"elem"`
+	Form  string      `json:"form"`
+	Calls []GroupCall `json:"calls"`
+	Hold  bool        `json:"hold,omitempty"` // true: all iterators are created first and drained last-to-first; false: each is drained at once
+}
+
+func (c GroupSeqCase) valid() bool {
+	if arrayTypes[c.Elem] == nil || c.Cap < 0 || c.Cap > 10000 || len(c.Calls) > 64 {
+		return false
 	}
-	var out []interface{}
-	for _, g := range groups {
-		gv := reflect.ValueOf(g)
-		if gv.Kind() != reflect.Slice && gv.Kind() != reflect.Array {
-			return flat
+	if c.Form != "slice" && c.Form != "ptr-slice" && c.Form != "ptr-array" {
+		return false
+	}
+	for _, k := range c.Calls {
+		if k.L < 0 || k.L > c.Cap || k.N < 1 || k.Impl < 0 || k.Impl > 1 {
+			return false
 		}
-		for i := 0; i < gv.Len(); i++ {
-			out = append(out, gv.Index(i).Interface())
+	}
+	return true
+}
+
+func checkGroupSeq(r *vk.Run, c GroupSeqCase) *vk.Fail {
+	defer r.Watch("groupseq", c)()
+	name := fmt.Sprintf("%s of %s over one backing array of %d, hold=%v, calls (l,n,impl) %v", c.Form, c.Elem, c.Cap, c.Hold, c.Calls)
+	fail := func(f string, a ...interface{}) *vk.Fail {
+		return &vk.Fail{Kind: "groupseq", Case: c, Msg: name + ": " + fmt.Sprintf(f, a...)}
+	}
+	full, flat := backing(c.Elem, c.Cap, 0)
+	var arr, shared reflect.Value
+	if c.Form == "ptr-array" {
+		arr = reflect.New(reflect.ArrayOf(c.Cap, arrayTypes[c.Elem]))
+		reflect.Copy(arr.Elem(), full)
+	}
+	if c.Form == "ptr-slice" {
+		shared = reflect.New(full.Type())
+	}
+	type held struct {
+		it   interface{ Next() interface{} }
+		call GroupCall
+		l    int
+	}
+	var hs []held
+	var msg string
+	res := vk.Safe(func() (string, error) {
+		for i, k := range c.Calls {
+			l := k.L
+			var seq interface{}
+			switch c.Form {
+			case "slice":
+				seq = full.Slice(0, l).Interface()
+			case "ptr-slice":
+				p := shared
+				if c.Hold {
+					p = reflect.New(full.Type())
+				}
+				p.Elem().Set(full.Slice(0, l))
+				seq = p.Interface()
+			default:
+				l = c.Cap
+				seq = arr.Interface()
+			}
+			it, err := callGroupBy(k.Impl, k.N, seq)
+			if err != nil || it == nil {
+				msg = fmt.Sprintf("call %d: %s(%d, %d elements): unexpected error %v", i, implNames[k.Impl], k.N, l, err)
+				return "", nil
+			}
+			if c.Hold {
+				hs = append(hs, held{it, k, l})
+				continue
+			}
+			if m := lawCheck(drain(it), flat[:l], k.N); m != "" {
+				msg = fmt.Sprintf("call %d: %s(%d, %d elements): %s", i, implNames[k.Impl], k.N, l, m)
+				return "", nil
+			}
 		}
-	}
-	// order check by pointee value
-	for i, p := range out {
-		if q, ok := p.(*item); !ok || q == nil || q.N != i {
-			return flat // let lawCheck report the mismatch
+		for i := len(hs) - 1; i >= 0; i-- {
+			h := hs[i]
+			if m := lawCheck(drain(h.it), flat[:h.l], h.call.N); m != "" {
+				msg = fmt.Sprintf("call %d (held, drained after the later ones): %s(%d, %d elements): %s", i, implNames[h.call.Impl], h.call.N, h.l, m)
+				return "", nil
+			}
 		}
+		return "", nil
+	})
+	if res.Panicked() {
+		return fail("%s", res)
 	}
-	if len(out) != len(flat) {
-		return flat
+	if msg != "" {
+		return fail("%s", msg)
 	}
-	return out
+	nt := ""
+	if len(c.Calls) > 1 && c.Cap > 0 {
+		nt = "S|" + name
+	}
+	r.Count(nt, "groupBy-sequence/"+c.Form)
+	if nt != "" {
+		r.Sample(func() interface{} { return c })
+	}
+	return nil
 }
 
 type NonSeqCase struct {
@@ -396,6 +841,22 @@ func nonSeq(kind string) interface{} {
 		return func() {}
 	case "bool":
 		return true
+	case "ptr-int":
+		n := 7
+		return &n
+	case "ptr-string":
+		t := "abc"
+		return &t
+	case "ptr-map":
+		return &map[string]int{"a": 1}
+	case "ptr-struct":
+		return &item{1}
+	case "nil-ptr-array":
+		return (*[3]int)(nil)
+	case "chan":
+		return make(chan int, 3)
+	case "iterator":
+		return iterators.Range(0, 3)
 	}
 	return 1.5
 }
@@ -419,35 +880,149 @@ func checkNonSeq(r *vk.Run, c NonSeqCase) *vk.Fail {
 			return &vk.Fail{Kind: "nonseq", Case: c, Msg: fmt.Sprintf("%s(2, %s): a non-sequence must be an error", which, c.Kind)}
 		}
 	}
+	// through a template the error fails the render: no output, no panic
+	ctx := plush.NewContextWith(map[string]interface{}{"x": nonSeq(c.Kind)})
+	const src = `a<%= for (g) in groupBy(2, x) { %>g<% } %>b`
+	tr := vk.Safe(func() (string, error) { return plush.Render(src, ctx) })
+	r.Evals(1)
+	if tr.Panicked() || tr.Err == nil {
+		return &vk.Fail{Kind: "nonseq", Case: c, Msg: fmt.Sprintf("template %q with x = %s gave %s, want an error", src, c.Kind, tr)}
+	}
 	r.Count("N|"+c.Kind, "groupBy/non-sequence")
 	return nil
 }
 
 // ---- len -------------------------------------------------------------------------
 
+type nstr string
+type nmap map[string]int
+
 type LenCase struct {
-	Kind string `json:"kind"` // string | slice | array | map | ptr-slice | ptr-array | ptr-map | ptr-string
+	Kind string `json:"kind"` // see lenKinds and litKinds
 	N    int    `json:"n"`
+}
+
+// values handed to len as Go values
+var lenKinds = []string{"string", "ptr-string", "slice", "ptr-slice", "array", "ptr-array", "map", "ptr-map",
+	"ptr-mbstring", "named-string", "ptr-named-string", "badutf8-string", "named-slice", "ptr-named-slice", "named-map",
+	"slice-spare", "iface-slice", "ptr-iface-slice", "bytes", "iface-map", "struct-array", "ptr-struct-array"}
+
+// values with one length only
+var nilLenKinds = []string{"nil-slice", "nil-map", "ptr-nil-slice", "ptr-nil-map"}
+
+// arguments spelled as literals of the template (template route only)
+var litKinds = []string{"lit-array", "lit-string", "lit-mbstring", "lit-map"}
+
+func isLit(kind string) bool { return strings.HasPrefix(kind, "lit-") }
+
+func (c LenCase) valid() bool {
+	if c.N < 0 || c.N > 100000 {
+		return false
+	}
+	for _, k := range nilLenKinds {
+		if k == c.Kind {
+			return c.N == 0
+		}
+	}
+	for _, k := range append(append([]string{}, lenKinds...), litKinds...) {
+		if k == c.Kind {
+			return !isLit(k) || c.N <= 2000
+		}
+	}
+	return false
+}
+
+// want is the Go length by construction.
+func (c LenCase) want() int {
+	switch c.Kind {
+	case "string", "ptr-mbstring", "named-string", "ptr-named-string", "lit-mbstring":
+		return 2 * c.N // Go len counts bytes; é is two
+	}
+	return c.N
 }
 
 func (c LenCase) build() interface{} {
 	switch c.Kind {
 	case "string":
-		return strings.Repeat("é", c.N) // Go len counts bytes
+		return strings.Repeat("é", c.N)
 	case "ptr-string":
 		s := strings.Repeat("x", c.N)
 		return &s
+	case "ptr-mbstring":
+		s := strings.Repeat("é", c.N)
+		return &s
+	case "named-string":
+		return nstr(strings.Repeat("é", c.N))
+	case "ptr-named-string":
+		s := nstr(strings.Repeat("é", c.N))
+		return &s
+	case "badutf8-string":
+		return strings.Repeat("\xff", c.N)
 	case "slice":
 		return make([]int, c.N)
 	case "ptr-slice":
 		s := make([]string, c.N)
 		return &s
+	case "named-slice":
+		return make(intList, c.N)
+	case "ptr-named-slice":
+		s := make(strList, c.N, c.N+2)
+		return &s
+	case "slice-spare":
+		return make([]int, c.N, c.N+5)
+	case "iface-slice", "ptr-iface-slice":
+		s := make([]interface{}, c.N, c.N+3)
+		for i := range s {
+			if i%2 == 0 {
+				s[i] = i
+			}
+		}
+		if c.Kind == "iface-slice" {
+			return s
+		}
+		return &s
+	case "bytes":
+		return make([]byte, c.N, c.N+1)
+	case "nil-slice":
+		return []string(nil)
+	case "ptr-nil-slice":
+		var s []int
+		return &s
+	case "nil-map":
+		return map[string]int(nil)
+	case "ptr-nil-map":
+		var m map[string]interface{}
+		return &m
 	case "array", "ptr-array":
 		p := reflect.New(reflect.ArrayOf(c.N, reflect.TypeOf(0)))
 		if c.Kind == "array" {
 			return p.Elem().Interface()
 		}
 		return p.Interface()
+	case "struct-array", "ptr-struct-array":
+		p := reflect.New(reflect.ArrayOf(c.N, reflect.TypeOf(item{})))
+		for i := 0; i < c.N; i++ {
+			p.Elem().Index(i).Set(reflect.ValueOf(item{i + 1}))
+		}
+		if c.Kind == "struct-array" {
+			return p.Elem().Interface()
+		}
+		return p.Interface()
+	case "named-map":
+		m := nmap{}
+		for i := 0; i < c.N; i++ {
+			m[fmt.Sprint("k", i)] = i
+		}
+		return m
+	case "iface-map":
+		m := map[string]interface{}{}
+		for i := 0; i < c.N; i++ {
+			m[fmt.Sprint("k", i)] = nil
+			if i%2 == 0 {
+				m[fmt.Sprint("k", i)] = i
+			}
+		}
+		return m
 	default:
 		m := map[int]bool{}
 		for i := 0; i < c.N; i++ {
@@ -460,19 +1035,65 @@ func (c LenCase) build() interface{} {
 	}
 }
 
+// literal spells the argument inside the template.
+func (c LenCase) literal() string {
+	var parts []string
+	switch c.Kind {
+	case "lit-string":
+		return `"` + strings.Repeat("a", c.N) + `"`
+	case "lit-mbstring":
+		return `"` + strings.Repeat("é", c.N) + `"`
+	case "lit-array":
+		for i := 0; i < c.N; i++ {
+			if i%2 == 0 {
+				parts = append(parts, fmt.Sprint(i))
+			} else {
+				parts = append(parts, fmt.Sprintf(`"s%d"`, i))
+			}
+		}
+		return "[" + strings.Join(parts, ", ") + "]"
+	}
+	for i := 0; i < c.N; i++ {
+		parts = append(parts, fmt.Sprintf(`k%d: %d`, i, i))
+	}
+	return "{" + strings.Join(parts, ", ") + "}"
+}
+
 func checkLen(r *vk.Run, c LenCase) *vk.Fail {
 	defer r.Watch("len", c)()
-	v := c.build()
-	want := reflect.Indirect(reflect.ValueOf(v)).Len()
-	var got int
-	res := vk.Safe(func() (string, error) { got = meta.Len(v); return "", nil })
-	if res.Panicked() || got != want {
-		return &vk.Fail{Kind: "len", Case: c, Msg: fmt.Sprintf("Len(%s of %d) = %d (%s), Go len is %d", c.Kind, c.N, got, res, want)}
+	want := c.want()
+	arg, data := "x", map[string]interface{}{}
+	if isLit(c.Kind) {
+		arg = c.literal()
+	} else {
+		v := c.build()
+		if rv := reflect.Indirect(reflect.ValueOf(v)); rv.Len() != want {
+			panic(fmt.Sprintf("harness: %v built with length %d, want %d", c, rv.Len(), want))
+		}
+		var got int
+		res := vk.Safe(func() (string, error) { got = meta.Len(v); return "", nil })
+		if res.Panicked() || got != want {
+			return &vk.Fail{Kind: "len", Case: c, Msg: fmt.Sprintf("Len(%s of %d) = %d (%s), Go len is %d", c.Kind, c.N, got, res, want)}
+		}
+		data["x"] = c.build()
 	}
-	ctx := plush.NewContextWith(map[string]interface{}{"x": v})
-	tr := vk.Safe(func() (string, error) { return plush.Render(`<%= len(x) %>`, ctx) })
+	src := `<%= len(` + arg + `) %>`
+	tr := vk.Safe(func() (string, error) { return plush.Render(src, plush.NewContextWith(data)) })
 	if tr.Panicked() || tr.Err != nil || tr.Out != fmt.Sprint(want) {
-		return &vk.Fail{Kind: "len", Case: c, Msg: fmt.Sprintf("<%%= len(x) %%> for %s of %d gave %s, want %d", c.Kind, c.N, tr, want)}
+		return &vk.Fail{Kind: "len", Case: c, Msg: fmt.Sprintf("%s for %s of %d gave %s, want %d", src, c.Kind, c.N, tr, want)}
+	}
+	if want <= 40 {
+		// the common idiom: a counting loop over the indexes
+		if !isLit(c.Kind) {
+			data = map[string]interface{}{"x": c.build()}
+		}
+		src := `<%= for (i) in until(len(` + arg + `)) { %><%= i %>,<% } %>`
+		w := loopText(IterCase{Fn: "until", A: want}, func(x *big.Int) string { return x.String() + "," })
+		tr := vk.Safe(func() (string, error) { return plush.Render(src, plush.NewContextWith(data)) })
+		r.Evals(1)
+		if tr.Panicked() || tr.Err != nil || tr.Out != w {
+			return &vk.Fail{Kind: "len", Case: c, Msg: fmt.Sprintf("%s for %s of %d gave %s, want %q", src, c.Kind, c.N, tr, w)}
+		}
 	}
 	nt := ""
 	if c.Kind != "slice" || c.N == 0 {
@@ -484,12 +1105,13 @@ func checkLen(r *vk.Run, c LenCase) *vk.Fail {
 
 // ---- the test ----------------------------------------------------------------------
 
-const rule = "range/between/until: (E) all a, b, n in [-8,8] plus every combination of the int extremes {MinInt, MinInt+1, -1, 0, 1, MaxInt-1, MaxInt} in every argument position; (R) random ints. The oracle walks the iterator next to the interval computed with math/big for at most 64 steps (so termination is decided by 'exhausted exactly when the model is', never by running 2^63 steps), then re-runs finished cases through a template for loop. groupBy: (E) lengths 0..40 x n in [-2,12] x element types {string,int,struct,pointer} x forms {slice, pointer to slice, pointer to array, array} x spare capacity behind the slice {0,1,5} filled with stale elements; both shipped implementations; partition laws (concatenation = input, <= n groups, no empty group, all but the last of equal size, last not larger) + error for n<=0 and for non-sequences; small cases also through a nested template loop. len: lengths 0..6 of string/slice/array/map and pointers to them, directly and through a template. Non-trivial = empty or negative or extreme interval; len not divisible by n, len <= n or non-slice form; non-slice or empty len argument. Distinct by call."
+const rule = "range/between/until: (E) all a, b, n in [-8,8] plus every combination of the int extremes {MinInt, MinInt+1, -1, 0, 1, MaxInt-1, MaxInt} in every argument position, +-3 neighbourhoods of them and of the limits of the narrower integer types (2^15, 2^16, 2^31, 2^32, 2^53 and their negatives); (R) random ints. The oracle walks the iterator next to the interval computed with math/big for at most 64 steps (so termination is decided by 'exhausted exactly when the model is', never by running 2^63 steps), then re-runs finished cases through template for loops: two-variable and one-variable form, arguments from the context and (when >= 0) spelled as number literals, glued and spaced; the iterator reaching the loop through a let variable and as the result of a function of the template; one parsed template executed three times with the arguments moved by one in between. Pairs: (E) 11 calls x 11 calls x 8 interleavings of their Next calls x {both created first, each created at its first use} and (R) random calls and schedules: each iterator must yield its own interval while the other is alive, exhausted or created after it was exhausted; short pairs also as a loop nested in a loop and as three loops in a row. groupBy: (E) lengths 0..40 x n in [-2,12] x element types {string,int,struct,pointer} x forms {slice, pointer to slice, pointer to array, array} x spare capacity behind the slice {0,1,5} filled with stale elements; (E) lengths 0..8 x n in [-1,10] x further element types {interface{} with nil elements (the type of a template's array literal), pointers some of them nil, bytes, slices (uncomparable), zero-size structs} x the 4 forms, named slice types, typed nil slices; (E) n at 9 large values up to MaxInt (none between 2^17 and 2^58: a wrong implementation that allocates per requested group must fail at once, not exhaust the machine) x lengths 0..8; both shipped implementations, compared group by group; partition laws (concatenation = input, <= n groups, no empty group, all but the last of equal size, last not larger) + error for n<=0 and for 16 kinds of non-sequence (scalars, map, struct, func, chan, an iterator, nil, pointers to them, nil pointers), directly and as a failed render; small cases also through a nested template loop that prints len of every group, with the sequence from the context and spelled as an array literal, and once per turn of an enclosing loop. Sequences of calls: (E) all ordered pairs of (prefix length 0..6, n 1..4) over ONE backing array x implementation pairs x {prefix slices, one re-assigned pointer to slice, the same pointer to array} x {drained at once, all held then drained last-to-first}; (R) 2-5 calls over up to 40 elements. len: lengths 0..9 and around 16, 64, 256, 1000 of string/slice/array/map, pointers to them, named types, spare capacity, []interface{} and map[string]interface{}, invalid UTF-8, nil slice and map; literals of the template; directly, through a template and as until(len(x)). Non-trivial = empty or negative or extreme interval; a pair schedule that uses both iterators; len not divisible by n, len <= n or non-slice form; two or more calls over a non-empty backing array; non-slice or empty len argument. Distinct by call."
 
 func setup(t *testing.T) *vk.Run {
 	r := vk.Start(t, "C19", rule,
 		"an iterator that agrees with the model for 64 steps on an interval longer than that is accepted without being run to its end",
-		"group elements are compared with == (pointee value for pointer elements)")
+		"group elements are compared with == (identity for pointer elements, DeepEqual for slice elements)",
+		"what a held groupBy iterator yields after the slice variable it was given a pointer to has been re-assigned is not asserted")
 	r.Replayer("iter", func(raw json.RawMessage) *vk.Fail {
 		var c IterCase
 		if f := vk.Decode(raw, &c); f != nil {
@@ -497,15 +1119,35 @@ func setup(t *testing.T) *vk.Run {
 		}
 		return checkIter(r, c)
 	})
+	r.Replayer("pair", func(raw json.RawMessage) *vk.Fail {
+		var c PairCase
+		if f := vk.Decode(raw, &c); f != nil {
+			return f
+		}
+		if len(c.Sched) > 4096 || strings.Trim(c.Sched, "xy") != "" {
+			return &vk.Fail{Kind: "decode", Msg: "bad pair case"}
+		}
+		return checkPair(r, c)
+	})
 	r.Replayer("group", func(raw json.RawMessage) *vk.Fail {
 		var c GroupCase
 		if f := vk.Decode(raw, &c); f != nil {
 			return f
 		}
-		if arrayTypes[c.Elem] == nil || c.Len < 0 || c.Len > 10000 || c.Spare < 0 || c.Spare > 1000 {
+		if !c.valid() {
 			return &vk.Fail{Kind: "decode", Msg: "bad group case"}
 		}
 		return checkGroup(r, c)
+	})
+	r.Replayer("groupseq", func(raw json.RawMessage) *vk.Fail {
+		var c GroupSeqCase
+		if f := vk.Decode(raw, &c); f != nil {
+			return f
+		}
+		if !c.valid() {
+			return &vk.Fail{Kind: "decode", Msg: "bad groupseq case"}
+		}
+		return checkGroupSeq(r, c)
 	})
 	r.Replayer("nonseq", func(raw json.RawMessage) *vk.Fail {
 		var c NonSeqCase
@@ -519,6 +1161,9 @@ func setup(t *testing.T) *vk.Run {
 		if f := vk.Decode(raw, &c); f != nil {
 			return f
 		}
+		if !c.valid() {
+			return &vk.Fail{Kind: "decode", Msg: "bad len case"}
+		}
 		return checkLen(r, c)
 	})
 	return r
@@ -527,6 +1172,22 @@ func setup(t *testing.T) *vk.Run {
 func TestReplay(t *testing.T) { setup(t).ReplayEnv() }
 
 var extremes = []int{math.MinInt, math.MinInt + 1, -1, 0, 1, math.MaxInt - 1, math.MaxInt}
+
+// limits of the narrower integer types and of exact float64 integers
+var narrow = []int{1 << 15, 1 << 16, 1 << 31, 1 << 32, 1 << 53, -(1 << 15), -(1 << 16), -(1 << 31), -(1 << 32), -(1 << 53)}
+
+// large group counts: every one is legal ("at most n groups"). Deliberately no values between 2^17 and
+// 2^58: an implementation that (wrongly) allocates per requested group must fail at once - a few hundred
+// kilobytes, or a size the runtime refuses outright - and not take tens of gigabytes from the machine.
+var bigN = []int{math.MaxInt, math.MaxInt - 1, math.MaxInt / 3, 1 << 62, 1 << 60, 1 << 16, 4097, 1000, 257}
+
+var pairPool = []IterCase{
+	{Fn: "range", A: 0, B: 2}, {Fn: "range", A: 1, B: 1}, {Fn: "range", A: 2, B: 1}, {Fn: "range", A: -1, B: 0},
+	{Fn: "between", A: 0, B: 3}, {Fn: "between", A: 0, B: 1}, {Fn: "until", A: 3}, {Fn: "until", A: 0},
+	{Fn: "range", A: math.MaxInt - 1, B: math.MaxInt}, {Fn: "range", A: math.MinInt, B: math.MinInt + 1}, {Fn: "between", A: math.MaxInt - 2, B: math.MaxInt},
+}
+
+var pairScheds = []string{"xyxyxyxyxy", "xxxxxyyyyyxy", "yyyyyxxxxxyx", "xxxxxyxyxyxyx", "xyyyyyxxxxxy", "xxyyxxyyxxyy", "xxxxxxyxyx", "yxxxxxxyyyyyx"}
 
 func TestProp(t *testing.T) {
 	r := setup(t)
@@ -565,6 +1226,32 @@ func TestProp(t *testing.T) {
 		}
 	}
 	r.Subspace("range/between/until at the int extremes (7 values per argument position, +-3 neighbourhoods)", n, true)
+	n = 0
+	for _, a := range narrow {
+		for d := -3; d <= 3; d++ {
+			r.Check(checkIter(r, IterCase{Fn: "until", A: a + d}))
+			r.Check(checkIter(r, IterCase{Fn: "range", A: a - 2, B: a + d}))
+			r.Check(checkIter(r, IterCase{Fn: "range", A: a + d, B: a + 2}))
+			r.Check(checkIter(r, IterCase{Fn: "between", A: a - 2, B: a + d}))
+			r.Check(checkIter(r, IterCase{Fn: "between", A: a + d, B: a + 2}))
+			r.Check(checkIter(r, IterCase{Fn: "range", A: 0, B: a + d}))
+			r.Check(checkIter(r, IterCase{Fn: "range", A: a + d, B: 0}))
+			n += 7
+		}
+	}
+	r.Subspace("range/between/until around the limits of the narrower integer types (+-2^15, 2^16, 2^31, 2^32, 2^53, +-3)", n, true)
+
+	n = 0
+	for _, x := range pairPool {
+		for _, y := range pairPool {
+			for _, s := range pairScheds {
+				r.Check(checkPair(r, PairCase{X: x, Y: y, Sched: s}))
+				r.Check(checkPair(r, PairCase{X: x, Y: y, Sched: s, Eager: true}))
+				n += 2
+			}
+		}
+	}
+	r.Subspace("two iterators alive at once: 11 x 11 calls x 8 interleavings x {created first, created at first use}", n, true)
 
 	maxLen := r.Pick(24, 40)
 	elems := []string{"string", "int", "struct", "ptr"}
@@ -580,40 +1267,188 @@ func TestProp(t *testing.T) {
 		l := int(i / 16 / 15)
 		r.Check(checkGroup(r, GroupCase{Len: l, N: nn, Elem: e, Form: f, Spare: spare}))
 	})
-	for _, k := range []string{"int", "string", "map", "struct", "nil", "nil-ptr-slice", "func", "bool", "float"} {
+	// further element types, named slice types, typed nil slices
+	elems2 := []string{"iface", "nilptr", "byte", "nested", "empty"}
+	allElems := append(append([]string{}, elems...), elems2...)
+	var more []GroupCase
+	for l := 0; l <= 8; l++ {
+		for nn := -1; nn <= 10; nn++ {
+			for _, sp := range []int{0, 3} {
+				for _, e := range elems2 {
+					for _, f := range forms {
+						more = append(more, GroupCase{Len: l, N: nn, Elem: e, Form: f, Spare: sp})
+					}
+				}
+				more = append(more, GroupCase{Len: l, N: nn, Elem: "int", Form: "named", Spare: sp}, GroupCase{Len: l, N: nn, Elem: "string", Form: "named", Spare: sp})
+			}
+			if l == 0 {
+				for _, e := range allElems {
+					more = append(more, GroupCase{N: nn, Elem: e, Form: "nil-slice"})
+				}
+			}
+		}
+	}
+	r.Subspace("groupBy: lengths 0..8 x n in [-1,10] x {interface{} with nils, pointers with nils, bytes, slices, zero-size} x 4 forms x spare {0,3}; named slice types; typed nil slices", int64(len(more)), true)
+	r.Parallel(int64(len(more)), 0, func(i int64) { r.Check(checkGroup(r, more[i])) })
+	// n far above any length
+	var huge []GroupCase
+	for _, nn := range bigN {
+		for l := 0; l <= 8; l++ {
+			for _, e := range allElems {
+				for _, f := range forms {
+					huge = append(huge, GroupCase{Len: l, N: nn, Elem: e, Form: f, Spare: int(l % 2 * 3)})
+				}
+			}
+		}
+	}
+	r.Subspace("groupBy: n in {MaxInt, MaxInt-1, MaxInt/3, 2^62, 2^60, 2^16, 4097, 1000, 257} x lengths 0..8 x 9 element types x 4 forms", int64(len(huge)), true)
+	r.Parallel(int64(len(huge)), 0, func(i int64) { r.Check(checkGroup(r, huge[i])) })
+
+	// sequences of calls over one backing array (sequential: the point is what one call leaves behind for the next)
+	n = 0
+	type ln struct{ l, n int }
+	var lns []ln
+	for l := 0; l <= 6; l++ {
+		for nn := 1; nn <= 4; nn++ {
+			lns = append(lns, ln{l, nn})
+		}
+	}
+	var cell int64
+	for _, f := range []string{"slice", "ptr-slice", "ptr-array"} {
+		for _, p := range lns {
+			for _, q := range lns {
+				if f == "ptr-array" && (p.l != 6 || q.l != 6) {
+					continue
+				}
+				for impl := 0; impl < 4; impl++ {
+					for _, hold := range []bool{false, true} {
+						cell++
+						if !r.Mine(cell) {
+							continue
+						}
+						e := []string{"int", "ptr", "string"}[int(cell)%3]
+						r.Check(checkGroupSeq(r, GroupSeqCase{Cap: 6, Elem: e, Form: f, Hold: hold,
+							Calls: []GroupCall{{L: p.l, N: p.n, Impl: impl & 1}, {L: q.l, N: q.n, Impl: impl >> 1}}}))
+						n++
+					}
+				}
+			}
+		}
+	}
+	r.Subspace("groupBy twice over one backing array of 6: all ordered pairs of (prefix length 0..6, n 1..4) x 4 implementation pairs x 3 forms x {drained at once, held}", cell, true)
+	// the same call again after another one (and three times in a row): p, q, p
+	cell = 0
+	for _, f := range []string{"slice", "ptr-slice", "ptr-array"} {
+		for _, p := range lns {
+			for _, q := range lns {
+				if f == "ptr-array" && (p.l != 6 || q.l != 6) {
+					continue
+				}
+				for impl := 0; impl < 2; impl++ {
+					for _, hold := range []bool{false, true} {
+						cell++
+						if !r.Mine(cell) {
+							continue
+						}
+						e := []string{"int", "ptr", "string"}[int(cell)%3]
+						r.Check(checkGroupSeq(r, GroupSeqCase{Cap: 6, Elem: e, Form: f, Hold: hold,
+							Calls: []GroupCall{{L: p.l, N: p.n, Impl: impl}, {L: q.l, N: q.n, Impl: impl}, {L: p.l, N: p.n, Impl: impl}}}))
+					}
+				}
+			}
+		}
+	}
+	r.Subspace("groupBy three times over one backing array of 6: calls p, q, p for all ordered pairs (p, q) x 2 implementations x 3 forms x {drained at once, held}", cell, true)
+
+	for _, k := range []string{"int", "string", "map", "struct", "nil", "nil-ptr-slice", "func", "bool", "float",
+		"ptr-int", "ptr-string", "ptr-map", "ptr-struct", "nil-ptr-array", "chan", "iterator"} {
 		r.Check(checkNonSeq(r, NonSeqCase{Kind: k}))
 	}
-	for _, k := range []string{"string", "ptr-string", "slice", "ptr-slice", "array", "ptr-array", "map", "ptr-map"} {
-		for l := 0; l <= 6; l++ {
+	lens := []int{0, 1, 2, 3, 4, 5, 6, 7, 8, 9, 15, 16, 17, 63, 64, 65, 255, 256, 257, 1000}
+	n = 0
+	for _, k := range lenKinds {
+		for _, l := range lens {
 			r.Check(checkLen(r, LenCase{Kind: k, N: l}))
+			n++
 		}
 	}
+	for _, k := range nilLenKinds {
+		r.Check(checkLen(r, LenCase{Kind: k}))
+		n++
+	}
+	for _, k := range litKinds {
+		for _, l := range []int{0, 1, 2, 3, 4, 5, 6, 7, 8, 9, 16, 17, 33, 100} {
+			r.Check(checkLen(r, LenCase{Kind: k, N: l}))
+			n++
+		}
+	}
+	r.Subspace("len: 22 kinds of Go value x 20 lengths (0..9, around 16, 64, 256, 1000), nil slice / map, 4 kinds of template literal x 14 lengths", n, true)
 
-	r.Rapid("iterators", r.Pick(5000, 60000), func(t *rapid.T) *vk.Fail {
-		pick := func(label string) int {
-			switch rapid.IntRange(0, 3).Draw(t, label+"_k") {
-			case 0:
-				return rapid.SampledFrom(extremes).Draw(t, label+"_x") // extremes
-			case 1:
-				e := rapid.SampledFrom(extremes).Draw(t, label+"_x")
-				d := rapid.IntRange(-70, 70).Draw(t, label+"_d")
-				if (d > 0 && e > math.MaxInt-d) || (d < 0 && e < math.MinInt-d) {
-					return e
-				}
-				return e + d
-			case 2:
-				return rapid.IntRange(-100, 100).Draw(t, label)
+	pick := func(t *rapid.T, label string) int {
+		switch rapid.IntRange(0, 4).Draw(t, label+"_k") {
+		case 0:
+			return rapid.SampledFrom(extremes).Draw(t, label+"_x") // extremes
+		case 1:
+			e := rapid.SampledFrom(extremes).Draw(t, label+"_x")
+			d := rapid.IntRange(-70, 70).Draw(t, label+"_d")
+			if (d > 0 && e > math.MaxInt-d) || (d < 0 && e < math.MinInt-d) {
+				return e
 			}
-			return rapid.Int().Draw(t, label)
+			return e + d
+		case 2:
+			return rapid.IntRange(-100, 100).Draw(t, label)
+		case 3:
+			return rapid.SampledFrom(narrow).Draw(t, label+"_x") + rapid.IntRange(-70, 70).Draw(t, label+"_d")
 		}
-		c := IterCase{Fn: rapid.SampledFrom([]string{"range", "between", "until"}).Draw(t, "fn"), A: pick("a")}
+		return rapid.Int().Draw(t, label)
+	}
+	iterCase := func(t *rapid.T, label string) IterCase {
+		c := IterCase{Fn: rapid.SampledFrom([]string{"range", "between", "until"}).Draw(t, label+"fn"), A: pick(t, label+"a")}
 		if c.Fn != "until" {
-			c.B = pick("b")
+			c.B = pick(t, label+"b")
 		}
-		return checkIter(r, c)
+		return c
+	}
+	r.Rapid("iterators", r.Pick(5000, 40000), func(t *rapid.T) *vk.Fail {
+		return checkIter(r, iterCase(t, ""))
+	})
+	r.Rapid("pairs", r.Pick(3000, 30000), func(t *rapid.T) *vk.Fail {
+		short := func(label string) IterCase { // mostly intervals that end within the schedule
+			c := iterCase(t, label)
+			if rapid.IntRange(0, 3).Draw(t, label+"short") > 0 {
+				c.A = rapid.IntRange(-4, 6).Draw(t, label+"sa")
+				c.B = c.A + rapid.IntRange(-2, 6).Draw(t, label+"sd")
+			}
+			return c
+		}
+		return checkPair(r, PairCase{X: short("x"), Y: short("y"), Eager: rapid.Bool().Draw(t, "eager"),
+			Sched: rapid.StringOfN(rapid.SampledFrom([]rune("xy")), 0, 40, -1).Draw(t, "sched")})
 	})
 	r.Rapid("groupBy", r.Pick(3000, 40000), func(t *rapid.T) *vk.Fail {
-		return checkGroup(r, GroupCase{Len: rapid.IntRange(0, 300).Draw(t, "len"), N: rapid.IntRange(-3, 320).Draw(t, "n"),
-			Elem: rapid.SampledFrom(elems).Draw(t, "elem"), Form: rapid.SampledFrom(forms).Draw(t, "form"), Spare: rapid.IntRange(0, 9).Draw(t, "spare")})
+		c := GroupCase{Len: rapid.IntRange(0, 300).Draw(t, "len"), Elem: rapid.SampledFrom(allElems).Draw(t, "elem"),
+			Form: rapid.SampledFrom(forms).Draw(t, "form"), Spare: rapid.IntRange(0, 9).Draw(t, "spare")}
+		switch rapid.IntRange(0, 5).Draw(t, "n_k") {
+		case 0: // around the length, its half and its double: where the number and the size of the groups change
+			base := []int{c.Len, c.Len / 2, (c.Len + 1) / 2, c.Len * 2, c.Len / 3}[rapid.IntRange(0, 4).Draw(t, "n_base")]
+			c.N = base + rapid.IntRange(-2, 2).Draw(t, "n_d")
+		case 1:
+			c.N = rapid.SampledFrom(bigN).Draw(t, "n_big") - rapid.IntRange(0, 3).Draw(t, "n_d")
+		default:
+			c.N = rapid.IntRange(-3, 320).Draw(t, "n")
+		}
+		return checkGroup(r, c)
+	})
+	r.Rapid("groupBy-sequences", r.Pick(2000, 30000), func(t *rapid.T) *vk.Fail {
+		c := GroupSeqCase{Cap: rapid.IntRange(0, 40).Draw(t, "cap"), Elem: rapid.SampledFrom(allElems).Draw(t, "elem"),
+			Form: rapid.SampledFrom([]string{"slice", "ptr-slice", "ptr-array"}).Draw(t, "form"), Hold: rapid.Bool().Draw(t, "hold")}
+		k := rapid.IntRange(2, 5).Draw(t, "calls")
+		for i := 0; i < k; i++ {
+			g := GroupCall{L: rapid.IntRange(0, c.Cap).Draw(t, "l"), N: rapid.IntRange(1, 12).Draw(t, "n"), Impl: rapid.IntRange(0, 1).Draw(t, "impl")}
+			if i > 0 && rapid.IntRange(0, 2).Draw(t, "again") == 0 { // the same call once more
+				g.L, g.N = c.Calls[i-1].L, c.Calls[i-1].N
+			}
+			c.Calls = append(c.Calls, g)
+		}
+		return checkGroupSeq(r, c)
 	})
 }
